@@ -309,7 +309,7 @@ def run_scan(ck):
     else:
         if os.path.exists(corpus):
             runs.append(("corpus", ["--cases", corpus]))
-        sweep = ["--seed", ck.seed, "--random-windows", ck.n(3, 120), "--tails", ck.n(2, 6), "--cluster", "both",
+        sweep = ["--seed", ck.seed, "--random-windows", ck.n(3, 40), "--tails", ck.n(2, 6), "--cluster", "both",
                  "--schemas", "new" if ck.quick() else "both"]
         runs.append(("sweep", sweep))
     hist = {}
@@ -356,7 +356,7 @@ def run_scan(ck):
             continue
         seen_ep.add(fam)
         picked.append((l, r))
-        if len(picked) >= ck.n(16, 60):
+        if len(picked) >= ck.n(60, 120):
             break
     if picked:
         bp, ub, out = eval_coq(ck, "C13_sample", [l for l, _ in picked])
@@ -388,6 +388,43 @@ def run_scan(ck):
     ck.add_samples([{"endpoint": l["ep"], "zone": l["zone"], "window": [l["from_ns"], l["to_ns"]], "sql": l["sql"][:400]} for l in sample_lines[:3]])
 
 
+def static_date_sites(ck):
+    """every `Format("2006-01-02")` of the reader (the only way a date bound is made) is applied to a UTC time:
+    a source-level guard for statement builders the sweep does not reach (plugins, new endpoints)"""
+    from vcheck import REPO
+    bad, n = [], 0
+    for root, _, files in os.walk(os.path.join(REPO, "reader")):
+        for fn in files:
+            if not fn.endswith(".go") or fn.endswith("_test.go"):
+                continue
+            path = os.path.join(root, fn)
+            for i, ln in enumerate(open(path, errors="replace"), 1):
+                for m in re.finditer(r'\.Format\("2006-01-02"\)', ln):
+                    n += 1
+                    # the receiver chain: back to the start of the call chain on this line
+                    k = m.start()
+                    depth = 0
+                    j = k
+                    while j > 0:
+                        ch = ln[j - 1]
+                        if ch == ")":
+                            depth += 1
+                        elif ch == "(":
+                            if depth == 0:
+                                break
+                            depth -= 1
+                        elif depth == 0 and not (ch.isalnum() or ch in "._"):
+                            break
+                        j -= 1
+                    if ".UTC()" not in ln[j:k]:
+                        bad.append("%s:%d: %s" % (os.path.relpath(path, REPO), i, ln.strip()[:120]))
+    ck.obligation("every date formatted for a SQL date bound in reader/ is taken in UTC (%d sites)" % n, not bad and n >= 10, "; ".join(bad[:5]))
+    if bad:
+        ck.violation({"property": "C13", "part": "source sites", "kind": "a date bound is formatted in the process time zone",
+                      "sites": bad, "explanation": "date columns hold UTC days; a bound formatted in the local zone is too tight west (upper) or east (lower) of UTC"},
+                     no_input=True)
+
+
 def run(ck):
     ck.trusted += [
         "C13: ClickHouse semantics of WHERE/PREWHERE conjuncts (a row is returned only if every conjunct holds; SELECT aliases resolve in WHERE) "
@@ -398,6 +435,10 @@ def run(ck):
         "writer-side dates are taken to be UTC days (C04 owns the writer)",
     ]
     ck.coq_props()
+    # the shared sqltext runs use fixed scratch-directory names ("logql", "logqlm") under .build/ocaml/<repo>/:
+    # checks of other properties running at the same time build in the same directory. Keep ours apart.
+    orig_ocaml_eval = ck.ocaml_eval
+    ck.ocaml_eval = lambda name, *a, **k: orig_ocaml_eval("C13_" + name, *a, **k)
     try:
         from checks import sqltext
     except ImportError:
@@ -407,4 +448,6 @@ def run(ck):
         sqltext.run_logql(ck, n_quick=400, n_thorough=20000)
         if hasattr(sqltext, "run_logql_metric"):
             sqltext.run_logql_metric(ck, n_quick=300, n_thorough=15000)
+    if not ck.replay:
+        static_date_sites(ck)
     run_scan(ck)
